@@ -792,6 +792,7 @@ theorem cstep_zero (chk : String → CheckRes) (total : Nat) (s : CSt) (e : Ev) 
     split
     · exact h
     · rename_i o hio
+      simp only [hio] at hne
       have hcp := countP_eraseIdx (fun o => decide (chk o = .allow)) hio
       cases hc : chk o with
       | allow =>
@@ -809,8 +810,8 @@ theorem cstep_zero (chk : String → CheckRes) (total : Nat) (s : CSt) (e : Ev) 
         simp only [hc, this, Bool.false_eq_true, if_false, Nat.add_zero] at hcp
         refine ⟨h.live, ?_, h.stop⟩
         have := h.eq; unfold nAllow at this ⊢; simp only at this ⊢; omega
-      | errCond => rw [fail_err] at hne; cases hne
-      | errHard => rw [fail_err] at hne; cases hne
+      | errCond => simp only [hc] at hne; rw [fail_err] at hne; cases hne
+      | errHard => simp only [hc] at hne; rw [fail_err] at hne; cases hne
   | abort i =>
     simp only [cstep]
     rw [h.live.1]
